@@ -1,7 +1,11 @@
 Require Import DS.Base DS.Parser DS.ScriptConf.
 Require DSG.GenScripts.
+(* definition files only (no proof files): the body model, its check, and the toy instance that replays the witness *)
+Require Import DS.Runner DS.ScriptBody DS.ScriptBodyToy.
 Require Import ExtrOcamlBasic.
 Extraction Language OCaml.
 Extraction "../ocaml/gen/c19_model.ml" N.of_nat N.to_nat Z.of_N Z.to_N
   script_confined all_scripts_confined pure_cmds flow_cmds script_aliases scope_prefix
-  DSG.GenScripts.gen_scripts DSG.GenScripts.sc_aliases DSG.GenScripts.sc_scope DSG.GenScripts.sc_min_args DSG.GenScripts.sc_name DSG.GenScripts.sc_path.
+  DSG.GenScripts.gen_scripts DSG.GenScripts.sc_aliases DSG.GenScripts.sc_scope DSG.GenScripts.sc_min_args DSG.GenScripts.sc_name DSG.GenScripts.sc_path
+  script_confined_s all_scripts_confined_s table_ok_s gen_table se_scope se_aliases se_body se_min iok instr_ok_s
+  cond_cmds s_for s_set_by_name wit_summary.
